@@ -27,6 +27,10 @@ type Gen struct {
 	funcs   map[string]*ssa.Function
 	repo    string
 	pure    map[string]bool // inferred effect-free package functions (purity.go)
+	// package-level variables that no function of the package other than the initialisers ever
+	// stores to or takes the address of (error sentinels, compiled patterns, byte-string constants):
+	// they hold the same value at every program point after initialisation
+	constGlobals map[*ssa.Global]bool
 }
 
 func LoadProgram(repo string, tags string) (*Gen, error) {
@@ -76,6 +80,36 @@ func LoadProgram(repo string, tags string) (*Gen, error) {
 					f := prog.MethodValue(ms.At(i))
 					if f != nil && f.Pkg == g.pkg && f.Synthetic == "" {
 						addFn(f)
+					}
+				}
+			}
+		}
+	}
+	g.constGlobals = map[*ssa.Global]bool{}
+	for _, m := range g.pkg.Members {
+		if gl, ok := m.(*ssa.Global); ok {
+			g.constGlobals[gl] = true
+		}
+	}
+	for _, f := range g.funcs {
+		root := f
+		for root.Parent() != nil {
+			root = root.Parent()
+		}
+		if root.Name() == "init" || strings.HasPrefix(root.Name(), "init#") {
+			continue
+		}
+		for _, b := range f.Blocks {
+			for _, ins := range b.Instrs {
+				if u, ok := ins.(*ssa.UnOp); ok && u.Op == token.MUL {
+					continue // a plain read
+				}
+				if _, ok := ins.(*ssa.DebugRef); ok {
+					continue
+				}
+				for _, op := range ins.Operands(nil) {
+					if gl, ok := (*op).(*ssa.Global); ok {
+						delete(g.constGlobals, gl)
 					}
 				}
 			}
